@@ -147,6 +147,8 @@ type chainVariant struct {
 	// CapEvery: after EVERY block the node applies (parent blocks included) all snapshot diff layers are merged into the disk
 	// layer (Tree.Cap(root, 0)): a long-running node whose layers were flattened, with its disk-layer cache staying warm
 	CapEvery bool `json:"flatten_snapshot_every_block,omitempty"`
+	// Generating: the whole chain is executed while the node's snapshot is still being generated (generator held, nothing covered)
+	Generating bool `json:"snapshot_generation_held,omitempty"`
 }
 
 func (v chainVariant) String() string {
@@ -156,6 +158,9 @@ func (v chainVariant) String() string {
 	}
 	if v.CapEvery {
 		s += ",flatten-every-block"
+	}
+	if v.Generating {
+		s += ",snapshot-still-generating"
 	}
 	if v.RestartAfter > 0 {
 		s += fmt.Sprintf(",restart-after-block-%d", v.RestartAfter)
@@ -180,7 +185,7 @@ var refChainVariant = chainVariant{Cfg: cfgFromBits(0), Scratch: true}
 
 func chainVariantsFor(p *prestate, nBlocks int) []chainVariant {
 	c := cfgFromBits
-	vs := []chainVariant{refChainVariant, {Cfg: c(0), Rep: 1}, {Cfg: c(0), Rep: 2}}
+	vs := []chainVariant{refChainVariant, {Cfg: c(0), Rep: 1}, {Cfg: c(0), Rep: 2}, {Cfg: c(0b0010), Generating: true}}
 	if r.Quick() {
 		if isFactory(p) {
 			// {snapshots off (above), snapshots on long-running, flattened to disk after every block (pruning and archive),
@@ -293,7 +298,7 @@ func runChain(p *prestate, wires []*wireBlock, v chainVariant) (out []*obs) {
 	if v.RestartAfter > 0 && v.EnableSnap {
 		cfg.Snapshot = false
 	}
-	n, err := nodeFor(p, variant{Cfg: cfg, Rep: v.Rep, Scratch: v.Scratch, CapEvery: v.CapEvery})
+	n, err := nodeFor(p, variant{Cfg: cfg, Rep: v.Rep, Scratch: v.Scratch, CapEvery: v.CapEvery, Generating: v.Generating})
 	if err != nil {
 		return []*obs{{Err: "node construction: " + firstLine(err.Error())}}
 	}
@@ -373,7 +378,7 @@ func localiseChain(p *prestate, wires []*wireBlock, ref []*obs, v chainVariant, 
 			if cfgFromBits(1<<bit) != maskCfg(vv.Cfg, bit) {
 				continue
 			}
-			if differs(chainVariant{Cfg: cfgFromBits(1 << bit), RestartAfter: vv.RestartAfter, EnableSnap: vv.EnableSnap, CapEvery: vv.CapEvery}) {
+			if differs(chainVariant{Cfg: cfgFromBits(1 << bit), RestartAfter: vv.RestartAfter, EnableSnap: vv.EnableSnap, CapEvery: vv.CapEvery, Generating: vv.Generating}) {
 				guilty = append(guilty, names[bit])
 			}
 		}
@@ -382,6 +387,9 @@ func localiseChain(p *prestate, wires []*wireBlock, ref []*obs, v chainVariant, 
 		guilty = set
 	}
 	axis = strings.Join(guilty, "+")
+	if vv.Generating && !differs(chainVariant{Cfg: vv.Cfg}) {
+		axis += "+snapshot-still-generating" // the same configuration with the finished snapshot agrees with the reference
+	}
 	if vv.CapEvery && !differs(chainVariant{Cfg: vv.Cfg, RestartAfter: vv.RestartAfter, EnableSnap: vv.EnableSnap}) {
 		axis += "+flatten-every-block" // the same variant without the flattening agrees with the reference: it is needed
 	}
@@ -521,6 +529,7 @@ func replayChain(c caseID) bool {
 	for k := 1; k < len(blocks); k++ {
 		vs = append(vs, chainVariant{Cfg: cfgFromBits(0b0110), RestartAfter: k, CapEvery: true}, chainVariant{Cfg: cfgFromBits(0b1111), RestartAfter: k, CapEvery: true})
 	}
+	vs = append(vs, chainVariant{Cfg: cfgFromBits(0b0010), Generating: true})
 	if c.ChainVariant != nil {
 		vs = append(vs, *c.ChainVariant)
 	}
